@@ -765,4 +765,12 @@ def run_shard(col, tier, seed, shard, nshards, args):
         sett = settings(max_examples=sequences_per_class(tier), stateful_step_count=steps(tier), deadline=None, database=None,
                         phases=(Phase.generate,), suppress_health_check=list(HealthCheck), report_multiple_bugs=False,
                         derandomize=False, print_blob=False)
-        run_state_machine_as_test(hseed(seed * 1009 + ci * 31 + (BUFSIZE % 9973))(machine), settings=sett)
+        try:
+            run_state_machine_as_test(hseed(seed * 1009 + ci * 31 + (BUFSIZE % 9973))(machine), settings=sett)
+        except Exception as e:  # noqa: BLE001
+            # Hypothesis re-executes prefixes of a history; code under test that keeps state between objects makes the same prefix
+            # behave differently the second time ("flaky").  If histories of this class already failed (each with its own
+            # replay), that is the finding and the search for this class simply ends here; otherwise it is a harness problem.
+            flaky = type(e).__name__.startswith("Flaky") or "Flaky" in type(e).__name__
+            if not (flaky and any(k.endswith("|" + cls) or f"|{cls}" in k for k in col.failures)):
+                raise
